@@ -196,6 +196,98 @@ func c18Mirror(c *Ctx, p *core.Prog) {
 	r.Floor("mirror-coupling", n, 1, "Content stores / applyChange calls")
 	// Open builds a fresh Document: its composite literal must split the very content it stores
 	c18OpenLiteral(c, p)
+	c18VersionTracked(c, p)
+}
+
+// c18VersionTracked: the mirrored document carries the version of the last change the client sent. Update has to store
+// its version parameter on every path on which the document was found - also for a change that carries no edits:
+// diagnostics are published for "that text and version", and the version is what the client matches them by.
+func c18VersionTracked(c *Ctx, p *core.Prog) {
+	r := c.R
+	r.Rule("version-tracked", "(*DocumentManager).Update stores its version parameter into Document.Version on every path on which the document was found (only the lookup-miss branch may return without it)")
+	fn := p.Method("pkg/lsp", "DocumentManager", "Update")
+	if fn == nil {
+		r.Undecide("version-tracked", "Update", "-", "(*DocumentManager).Update not found")
+		return
+	}
+	// the int parameter that ends up in Document.Version somewhere
+	stores := map[*ssa.BasicBlock]bool{}
+	for _, b := range fn.Blocks {
+		for _, in := range b.Instrs {
+			st, ok := in.(*ssa.Store)
+			if !ok {
+				continue
+			}
+			fa, ok := st.Addr.(*ssa.FieldAddr)
+			if !ok || core.FieldName(fa.X.Type(), fa.Field) != "Version" {
+				continue
+			}
+			if _, isPar := st.Val.(*ssa.Parameter); isPar {
+				stores[b] = true
+			}
+		}
+	}
+	if len(stores) == 0 {
+		r.Violate("version-tracked", "Update", p.FnPos(fn), "Update never stores its version parameter into Document.Version")
+		return
+	}
+	// the lookup-miss edge: `doc, ok := m[uri]; if !ok { return }`
+	missEdge := map[*ssa.BasicBlock]int{}
+	for _, b := range fn.Blocks {
+		iff, ok := b.Instrs[len(b.Instrs)-1].(*ssa.If)
+		if !ok {
+			continue
+		}
+		cond := iff.Cond
+		neg := false
+		if u, ok := cond.(*ssa.UnOp); ok && u.Op == token.NOT {
+			cond, neg = u.X, true
+		}
+		ex, ok := cond.(*ssa.Extract)
+		if !ok || ex.Index != 1 {
+			continue
+		}
+		if lk, ok := ex.Tuple.(*ssa.Lookup); !ok || !lk.CommaOk {
+			continue
+		}
+		// successor taken when ok is false
+		k := 1
+		if neg {
+			k = 0
+		}
+		missEdge[b] = k
+	}
+	seen := map[*ssa.BasicBlock]bool{}
+	var bad *ssa.BasicBlock
+	var walk func(b *ssa.BasicBlock)
+	walk = func(b *ssa.BasicBlock) {
+		if seen[b] || stores[b] || bad != nil {
+			return
+		}
+		seen[b] = true
+		if _, isRet := b.Instrs[len(b.Instrs)-1].(*ssa.Return); isRet {
+			bad = b
+			return
+		}
+		for k, sc := range b.Succs {
+			if mk, ok := missEdge[b]; ok && mk == k {
+				continue
+			}
+			walk(sc)
+		}
+	}
+	walk(fn.Blocks[0])
+	if bad == nil {
+		r.OK("version-tracked", "Update", p.FnPos(fn), "every path on which the document exists stores the version")
+	} else {
+		pos := p.FnPos(fn)
+		for _, in := range bad.Instrs {
+			if in.Pos().IsValid() {
+				pos = p.Pos(in.Pos())
+			}
+		}
+		r.Violate("version-tracked", "Update", pos, "Update can return with the document found but its Version not updated: later diagnostics are labelled with the previous version")
+	}
 }
 
 // c18OpenLiteral: wherever a Document literal is built with a Content, its Lines is splitLines(that content)
